@@ -159,6 +159,9 @@ func (g *Gen) Next(t *tape.Tape, parent *Block, o Opts) *Block {
 	} else {
 		pre = refstate.New()
 	}
+	if parent == nil && o.MinTime > 0 {
+		ts = o.MinTime
+	}
 	if ts < o.MinTime {
 		ts = o.MinTime
 	}
